@@ -28,6 +28,8 @@ def run(run, model):
         if h is not None:
             run.do(loops.verdict_rule, model, "C16.first-failure", h[0], h[1], h[2], 1)
     run.do(meta.shared_member_rule, model, "C16.once-shared-member")
+    # which constructor carries the "after construction" phase
+    run.do(inv.install, model, "C16.install", "C16.ctor-choice")
     run.minimum("C16.phases", 2)
     run.minimum("C16.inv-phases", 2)
     run.minimum("C16.append", 3)
